@@ -520,6 +520,33 @@ def r03_6(ctx):
 
 # ------------------------------------------------------------------ C05
 
+def _only_take_remaining(b, op):
+    """the tested collection IS what take_remaining() returned — not a filtered / rebuilt derivative of it (a 'trim the report to the
+    real cycle members' helper with a bug would make the leftover map look empty)"""
+    lv = C.trace(b, op)
+    if not (lv and all(leaf_is_call(l, ROLE["take_remaining"]) for l in lv)):
+        return False
+    # ... and nothing edits it in place before the test: the local holding the result is never borrowed mutably
+    holders = set()
+    for l in lv:
+        t = l.data
+        if not t["dest"]["p"]:
+            holders.add(t["dest"]["l"])
+    changed = True
+    while changed:
+        changed = False
+        for bb, si, st in b.stmts():
+            if st["k"] == "assign" and not st["lhs"]["p"] and st["rv"]["k"] == "use":
+                p = C.op_place(st["rv"]["op"])
+                if p is not None and not p["p"] and p["l"] in holders and st["lhs"]["l"] not in holders:
+                    holders.add(st["lhs"]["l"])
+                    changed = True
+    for bb, si, st in b.stmts():
+        if st["k"] == "assign" and st["rv"]["k"] == "ref" and st["rv"].get("mut") and st["rv"]["pl"]["l"] in holders:
+            return False
+    return True
+
+
 @rule("C05", "R05.1", floor=2)
 def r05_1(ctx):
     lib = ctx.lib
@@ -528,10 +555,10 @@ def r05_1(ctx):
         return
     emp_true = bool_call_edges(b, lib, ("std::collections::HashMap::<K, V, S, A>::is_empty", "std::collections::HashSet::<T, S, A>::is_empty",
                                         "std::vec::Vec::<T, A>::is_empty"), True,
-                               arg_pred=lambda t: has_call(C.trace(b, t["args"][0]), ROLE["take_remaining"]))
+                               arg_pred=lambda t: _only_take_remaining(b, t["args"][0]))
     emp_false = bool_call_edges(b, lib, ("std::collections::HashMap::<K, V, S, A>::is_empty", "std::collections::HashSet::<T, S, A>::is_empty",
                                          "std::vec::Vec::<T, A>::is_empty"), False,
-                                arg_pred=lambda t: has_call(C.trace(b, t["args"][0]), ROLE["take_remaining"]))
+                                arg_pred=lambda t: _only_take_remaining(b, t["args"][0]))
     oks = ok_sites(b)
     if not oks:
         ctx.anchor_missing("Ok return of the coordinator")
@@ -867,3 +894,53 @@ def r03_8(ctx):
             ctx.ok("unbounded mpsc::channel|%s" % b.name, site=ctx.site(b, bb))
     if n == 0:
         ctx.anchor_missing("mpsc channel construction")
+
+
+@rule("C02", "R02.10", floor=1)
+def r02_10(ctx):
+    """every include/after directive seen before the second pass is looked up as a dependency: in the collect-deps gate, with the
+    PpMode::Execute early return and the get_txtpp_file() call cut, no return is reachable for DirectiveType::Include or ::After
+    (a shortcut for 'already collecting' that skips `after` loses an ordering edge: the file is then built from stale or missing data)"""
+    lib = ctx.lib
+    b = body(ctx, "execute_in_collect_deps_mode")
+    if not b:
+        return
+    gets = [bb for bb, t in calls_to(b, ROLE["get_txtpp_file"])]
+    if not gets:
+        ctx.anchor_missing("get_txtpp_file call in the collect-deps gate")
+        return
+    exec_e = enum_edges(b, lib, ADT["PpMode"], lambda vs: vs == {"Execute"})
+    mo = M.Modes(lib, mode_adts=(ADT["DirectiveType"],), all_modes=frozenset(["Empty", "Include", "After", "Run", "Tag", "Temp", "Write"]))
+    me = mo.mode_edges(b)
+    rets = ok_sites(b)
+    for v in ("Include", "After"):
+        cut = {eid for eid, vs in me.items() if v not in vs} | out_edges(b, gets) | set(exec_e)
+        bad = [bb for bb in rets if not C.guarded(b, bb, cut)]
+        if bad:
+            ctx.violation([b.name, "dependency-lookup-skipped", v], "a `%s` directive can pass the collect-deps gate without its target being looked up "
+                          "as a dependency (outside PpMode::Execute)" % v.lower(), site=ctx.site(b, bad[0]), witness=C.witness(b, bad[0], cut))
+        else:
+            ctx.ok("%s directives always reach the dependency lookup before the second pass" % v, site=ctx.site(b, gets[0]))
+
+
+@rule("C03", "R03.9", floor=1)
+def r03_9(ctx):
+    """every directory that was counted is scanned: execute_directory has no path from its entry to a return that bypasses the
+    ThreadPool::execute of the scan task (its callers add the directory to the total beforehand; a skipped scan leaves the total
+    unreachable and the coordinator waiting forever)"""
+    lib = ctx.lib
+    ed = body(ctx, "execute_directory")
+    if not ed:
+        return
+    sp = calls_reaching(lib, ed, POOL_EXEC)
+    if not sp:
+        ctx.anchor_missing("scan task spawn in execute_directory")
+        return
+    cut = out_edges(ed, [x[0] for x in sp])
+    rets = [bb for bb in C.live(ed) if ed.term(bb)["k"] == "return"]
+    bad = [bb for bb in rets if not C.guarded(ed, bb, cut)]
+    if bad:
+        ctx.violation([ed.name, "scan-skipped"], "execute_directory can return without spawning the scan task although the directory was already "
+                      "counted in the total", site=ctx.site(ed, bad[0]), witness=C.witness(ed, bad[0], cut))
+    else:
+        ctx.ok("execute_directory always spawns the scan task", site=ctx.site(ed, sp[0][0]))
